@@ -28,6 +28,12 @@ func TestC01(t *testing.T) {
 	n2, n3 := []string{"n1", "n2"}, []string{"n1", "n2", "n3"}
 	if h.Thorough() {
 		b = 2
+		inner := churn
+		churn = func() *w.Alpha { // thorough: a sync may also hit one API failure
+			a := inner()
+			a.ERSFaults = []string{"lost:create Pod", "reject:delete Pod", "stop:create Pod"}
+			return a
+		}
 	}
 	var scs []scOpt
 	s1 := corpusS1(b, churn())
